@@ -37,6 +37,8 @@ def variants(i, nfiles):
 
 
 def text_of(inc, body):
+    if body.startswith("\ufeff"):       # a byte order mark stays the first character of the text
+        return "\ufeff" + text_of(inc, body[1:])
     return "".join('include "%s"\n' % FILES[j].rsplit("/", 1)[1] for j in inc) + body + "\n"
 
 
@@ -53,6 +55,18 @@ def histories(ck):
         for inc, b in (vs[1], vs[nb + 1], vs[2 * nb + 2], vs[3 * nb], vs[3], vs[nb + 3], vs[nb + 4]):
             atoms.append(("edit", i, inc, b))
             atoms.append(("editroot", i, inc, b))
+        # texts that start with a byte order mark (the two ways a text enters the database must agree on it)
+        bom = "\ufeffclass C%d {\n  int x%d = 1;\n}" % (i, i)
+        for inc in ((), tuple(j for j in range(nfiles) if j != i)[:1]):
+            atoms.append(("edit", i, inc, bom))
+            atoms.append(("editroot", i, inc, bom))
+        # every statement kind, with uses that reach into the other files' declarations when they are included
+        rich = ("class R%d<int p, string q = \"s\"> { int f = p; bits<4> b; let b{1-0} = 1; }\ndefvar v%d = 1;\nassert !eq(v%d, 1), \"m\";\n"
+                "defset list<R%d> s%d = { def in%d : R%d<p = 2>; }\nforeach i = [1, 2] in { def e%d#i : R%d<i> { let f = i; } }\n"
+                "if !eq(v%d, 1) then { def t%d : R%d<3>; } else { def u%d; }\nlet f = 4 in { def l%d : R%d<5>; }\ndump \"x\" # v%d;\n" % ((i,) * 16))
+        for inc in ((), tuple(j for j in range(nfiles) if j != i)[:1]):
+            atoms.append(("edit", i, inc, rich))
+            atoms.append(("editroot", i, inc, rich))
         atoms.append(("root", i, None, None))
         atoms.append(("rootbare", i, None, None))      # set_root_file alone: the text is not sent again
     for k in range(1, (3 if quick else 4) + 1):
